@@ -134,6 +134,8 @@ func VH_C16_prom() {
 
 // non-interference (2-safety): two clients that differ only in address and receive the same
 // location info produce exactly the same exported label values
+var verifC20Values []int64
+
 func verifC20Scenario(db *verifInfoDB, caddr *net.TCPAddr, authenticated bool) []string {
 	verifSinkReset() // the model's sink log is per run, not per collector
 	verifInstallClock(1 << 41)
@@ -153,6 +155,7 @@ func verifC20Scenario(db *verifInfoDB, caddr *net.TCPAddr, authenticated bool) [
 	verifClockNs += 1000
 	ucm.RemoveNatEntry()
 	verifClockNs += 1000
+	verifC20Values = verifAllValues(m)
 	return verifAllLabelValues(m)
 }
 
@@ -163,7 +166,13 @@ func VH_C20_noninterference() {
 	verifAssume(a.Port != b.Port && a.IP[3] != b.IP[3])
 	auth := verifFlag("authenticated")
 	la := verifC20Scenario(db, a, auth)
+	va := verifC20Values
 	lb := verifC20Scenario(db, b, auth)
+	vb := verifC20Values
+	verifAssert("C20.noninterference.same-number-of-samples", len(va) == len(vb))
+	for i := 0; i < len(va) && i < len(vb); i++ {
+		verifAssert("C20.noninterference.same-values", va[i] == vb[i])
+	}
 	verifAssert("C20.noninterference.same-shape", len(la) == len(lb))
 	for i := 0; i < len(la) && i < len(lb); i++ {
 		verifAssert("C20.noninterference.same-labels", la[i] == lb[i])
